@@ -7,6 +7,7 @@ Definition check_prop (p : Z) (inp obs : V) : verdict :=
   | 13%Z => check_secure inp obs
   | 3%Z => check_crash gen_crash_params inp obs
   | 106%Z => check_storm inp obs
+  | 119%Z => check_startstorm inp obs
   | 18%Z => check_leftovers gen_res_params inp obs
   | 20%Z => check_conc nextid_atomic inp obs
   | 14%Z => check_interop inp obs
